@@ -17,24 +17,27 @@ EXTENDS XlFuncs, XlSyntax
 Cell(wb, sh, c, r) == IF <<sh, c, r>> \in DOMAIN wb.cells THEN wb.cells[<<sh, c, r>>] ELSE [c |-> "absent"]
 
 \* reference folds used by probe formulas (the full aggregate family is XlAgg)
-RECURSIVE SumSeq(_)
-SumSeq(xs) == \* numbers only; text and blanks in ranges are ignored; first error wins
-    IF Len(xs) = 0 THEN Whole(0)
-    ELSE LET h == xs[1]  t == SumSeq(Tail(xs)) IN
-         IF h.t = "err" THEN h
-         ELSE IF t.t \in {"err", "open"} THEN t
-         ELSE IF h.t = "num" THEN RAdd(h, t)
-         ELSE IF h.t = "date" THEN Open
-         ELSE t
-RECURSIVE CountNonBlank(_)
-CountNonBlank(xs) == IF Len(xs) = 0 THEN 0
-                     ELSE (IF xs[1].t = "blank" \/ (xs[1].t = "txt" /\ xs[1].v = <<>>) THEN 0 ELSE 1) + CountNonBlank(Tail(xs))
+\* balanced recursion: ranges of several hundred cells would overflow TLC's stack otherwise
+SumItem(h) == IF h.t \in {"err", "num"} THEN h ELSE IF h.t = "date" THEN Open ELSE Whole(0)
+SumPair(l, r) == IF l.t = "err" THEN l ELSE IF r.t = "err" THEN r
+                 ELSE IF l.t = "open" \/ r.t = "open" THEN Open ELSE RAdd(l, r)
+RECURSIVE SumRange(_, _, _)
+SumRange(xs, i, j) == \* numbers only; text and blanks in ranges are ignored; leftmost error wins
+    IF i > j THEN Whole(0)
+    ELSE IF i = j THEN SumItem(xs[i])
+    ELSE LET m == (i + j) \div 2 IN SumPair(SumRange(xs, i, m), SumRange(xs, m + 1, j))
+SumSeq(xs) == SumRange(xs, 1, Len(xs))
+NonBlank(x) == IF x.t = "blank" \/ (x.t = "txt" /\ x.v = <<>>) THEN 0 ELSE 1
+RECURSIVE CountRange(_, _, _)
+CountRange(xs, i, j) == IF i > j THEN 0 ELSE IF i = j THEN NonBlank(xs[i])
+                        ELSE LET m == (i + j) \div 2 IN CountRange(xs, i, m) + CountRange(xs, m + 1, j)
+CountNonBlank(xs) == CountRange(xs, 1, Len(xs))
 
 RECURSIVE FlatVals(_)
 FlatVals(args) == \* arguments (scalars / arrays) to one sequence of scalars, row-major
     IF Len(args) = 0 THEN <<>>
     ELSE LET h == args[1] IN
-         (IF h.t = "arr" THEN FlatVals(FlatVals(h.v)) ELSE <<h>>) \o FlatVals(Tail(args))
+         (IF h.t = "arr" THEN ArrElems(h) ELSE <<h>>) \o FlatVals(Tail(args))
 
 \* scalar arguments of SUM are coerced (numeric text, booleans); range elements are not
 SumArgs(args) ==
